@@ -61,7 +61,7 @@ func TestMain(m *testing.M) {
 		Rule: "one child process per environment configuration (quick: default + each of the 5 UNSAFE_* variables alone + all five set to explicit negatives; thorough: all 32 combinations with varied affirmative spellings, explicit negatives, unparsable values, look-alike names; the default environment in every shard). " +
 			"Each child starts a real node.Node (aqua service, fake PoW, in-memory chain, real light-scrypt keystore with one unlocked and one locked account whose keys the harness also holds, a pending pool transaction from the unlocked one) with in-proc, IPC, HTTP and WS endpoints and every namespace of the in-proc rpc_modules whitelisted on HTTP/WS. " +
 			"Method universe = reflection over the API list the node registered (node.Node.rpcAPIs) ∪ the callbacks found in each endpoint's rpc.Server registry ∪ RegisterName's own name list ∪ wire aliases (eth_X for aqua_X, bare names for btc_). " +
-			"Per transport: a fixed list of documented signing calls (witnesses / positive control), then per method N calls (quick 20, thorough 30) whose arguments are drawn with rapid from the reflected parameter types; 1 in 12 calls is sent inside a JSON-RPC batch; subscriptions are created through <ns>_subscribe. " +
+			"Per transport: a fixed list of documented signing calls (witnesses / positive control), then per method N calls (quick 20, thorough 24) whose arguments are drawn with rapid from the reflected parameter types; 1 in 12 calls is sent inside a JSON-RPC batch; subscriptions are created through <ns>_subscribe. " +
 			"Verdict per call: signing-counter delta in the child. evaluation = one RPC call. non-trivial = the arguments name a keystore account (locked or unlocked) and the call reached a registered method (answer is neither method-not-found nor invalid-params); distinct by hash(env, transport, method, params JSON).",
 		Assumptions: []string{
 			"keystore.VerifSignCount counts every signature made with a keystore key (hook calls sit in SignHash, SignHashAllowed, SignHashOK, SignTx, SignHashWithPassphrase, SignTxWithPassphrase)",
@@ -265,7 +265,7 @@ func TestSigningLockdown(t *testing.T) {
 			}
 		}
 	}
-	calls := ev.Pick(20, 30)
+	calls := ev.Pick(20, 24)
 	par := ev.Pick(7, 3)
 	// generous: a child takes ~30 s on an idle machine, several times that on a loaded one;
 	// a child that runs out of time makes the run inconclusive, never a violation
@@ -347,7 +347,9 @@ func TestSigningLockdown(t *testing.T) {
 			}
 		}
 	}
-	ev.Add("methods-in-universe", int64(maxMethods))
+	if ev.Shard() == 0 {
+		ev.Add("methods-in-universe", int64(maxMethods))
+	}
 	ev.Add("environments", int64(len(envs)))
 	if completed == len(envs) {
 		ev.Label("children-all-completed")
